@@ -161,6 +161,14 @@ def _legends(fig, kind):
 def p_leg(fig, kind, info):
     n = info["F"]
     want = ["Name %d" % i for i in range(n)]
+    if kind == "map":
+        # a map has no legend box: each file's panel is titled with its legend entry
+        titles = [ax.get_title() for ax in main_axes(fig, kind)]
+        if "-title" in info["argv"]:
+            return None          # an explicit -title replaces the panel titles
+        if titles != want:
+            return "map panels are titled %s, expected the legend entries %s" % (titles, want)
+        return None
     legs = _legends(fig, kind)
     if not legs:
         return "no legend"
@@ -480,7 +488,7 @@ OPTIONS = {
     "yrot": (["-yrot", "25"], ["std", "loc", "pithist", "igncontrib"], p_yrot, None),
     "xlog": (["-xlog"], ["std"], p_xlog, "xlog"),
     "ylog": (["-ylog"], ["std", "loc"], p_ylog, "ylog"),
-    "leg": (["-leg", "LEGNAMES"], ["std", "std5", "loc", "igncontrib"], p_leg, None),
+    "leg": (["-leg", "LEGNAMES"], ["std", "std5", "loc", "map", "igncontrib"], p_leg, None),
     "legfs": (["-legfs", "7"], ["std", "loc", "igncontrib"], p_legfs, "legfs"),
     "legfs0": (["-legfs", "0"], ["std", "loc", "igncontrib"], p_legfs0, "legfs"),
     "legloc": (["-legloc", "lower_left"], ["std", "loc", "igncontrib"], p_legloc, "legfs0x"),
